@@ -17,7 +17,7 @@ import (
 	mockattestationaggregator "github.com/attestantio/vouch/services/attestationaggregator/mock"
 	mockattester "github.com/attestantio/vouch/services/attester/mock"
 	mockbeaconblockproposer "github.com/attestantio/vouch/services/beaconblockproposer/mock"
-	mockbeaconcommitteesubscriber "github.com/attestantio/vouch/services/beaconcommitteesubscriber/mock"
+	"github.com/attestantio/vouch/services/beaconcommitteesubscriber"
 	"github.com/attestantio/vouch/services/cache"
 	mockcache "github.com/attestantio/vouch/services/cache/mock"
 	nullmetrics "github.com/attestantio/vouch/services/metrics/null"
@@ -27,23 +27,47 @@ import (
 	e2wtypes "github.com/wealdtech/go-eth2-wallet-types/v2"
 )
 
-// one validator (index 7) that is in every sync committee
-type hStartAccounts struct{}
+// one validator (index 7) that is in every sync committee; optionally a second
+// one (index 8) whose validator becomes active at the start of a given epoch
+type hStartAccounts struct {
+	late     bool
+	lateFrom phase0.Epoch
+}
 
 func (hStartAccounts) one() map[phase0.ValidatorIndex]e2wtypes.Account {
 	return map[phase0.ValidatorIndex]e2wtypes.Account{7: &vstub.Account{VIndex: 7, Nm: "acc"}}
 }
-func (h hStartAccounts) ValidatingAccountsForEpoch(_ context.Context, _ phase0.Epoch) (map[phase0.ValidatorIndex]e2wtypes.Account, error) {
-	return h.one(), nil
+func (h hStartAccounts) at(epoch phase0.Epoch) map[phase0.ValidatorIndex]e2wtypes.Account {
+	res := h.one()
+	if h.late && epoch >= h.lateFrom {
+		res[8] = &vstub.Account{VIndex: 8, Nm: "acc"}
+	}
+	return res
 }
-func (h hStartAccounts) ValidatingAccountsForEpochByIndex(_ context.Context, _ phase0.Epoch, _ []phase0.ValidatorIndex) (map[phase0.ValidatorIndex]e2wtypes.Account, error) {
-	return h.one(), nil
+func (h hStartAccounts) ValidatingAccountsForEpoch(_ context.Context, epoch phase0.Epoch) (map[phase0.ValidatorIndex]e2wtypes.Account, error) {
+	return h.at(epoch), nil
+}
+func (h hStartAccounts) ValidatingAccountsForEpochByIndex(_ context.Context, epoch phase0.Epoch, _ []phase0.ValidatorIndex) (map[phase0.ValidatorIndex]e2wtypes.Account, error) {
+	return h.at(epoch), nil
 }
 func (h hStartAccounts) SyncCommitteeAccountsForEpoch(_ context.Context, _ phase0.Epoch) (map[phase0.ValidatorIndex]e2wtypes.Account, error) {
 	return h.one(), nil
 }
 func (h hStartAccounts) SyncCommitteeAccountsForEpochByIndex(_ context.Context, _ phase0.Epoch, _ []phase0.ValidatorIndex) (map[phase0.ValidatorIndex]e2wtypes.Account, error) {
 	return h.one(), nil
+}
+
+// hRecSubscriber records for which epoch and which validators beacon committee subscriptions were asked.
+type hRecSubscriber struct {
+	epochs []phase0.Epoch
+	with8  []bool
+}
+
+func (h *hRecSubscriber) Subscribe(_ context.Context, epoch phase0.Epoch, accounts map[phase0.ValidatorIndex]e2wtypes.Account) (map[phase0.Slot]map[phase0.CommitteeIndex]*beaconcommitteesubscriber.Subscription, error) {
+	_, has := accounts[8]
+	h.epochs = append(h.epochs, epoch)
+	h.with8 = append(h.with8, has)
+	return map[phase0.Slot]map[phase0.CommitteeIndex]*beaconcommitteesubscriber.Subscription{}, nil
 }
 
 // one attester duty per epoch asked for: validator 7 in the epoch's last slot
@@ -84,6 +108,9 @@ func c15Startup(period uint64) {
 		"SECONDS_PER_SLOT": 12 * time.Second, "SLOTS_PER_EPOCH": uint64(spe), "EPOCHS_PER_SYNC_COMMITTEE_PERIOD": uint64(epp),
 		"ALTAIR_FORK_EPOCH": uint64(0), "BELLATRIX_FORK_EPOCH": uint64(0), "CAPELLA_FORK_EPOCH": uint64(0),
 	}}
+	// a second validator may become active with the epoch after the one Vouch is started in
+	accts := hStartAccounts{late: vnd.Bool("a-validator-activates-next-epoch"), lateFrom: phase0.Epoch(startEpoch + 1)}
+	subs := &hRecSubscriber{}
 	s, err := New(context.Background(),
 		WithLogLevel(zerolog.Disabled),
 		WithMonitor(nullmetrics.New()),
@@ -93,7 +120,7 @@ func c15Startup(period uint64) {
 		WithAttesterDutiesProvider(hLastSlotAttDuties{spe: spe}),
 		WithSyncCommitteeDutiesProvider(&hSyncDuties{duties: []*apiv1.SyncCommitteeDuty{{ValidatorIndex: 7, ValidatorSyncCommitteeIndices: []phase0.CommitteeIndex{3}}}}),
 		WithEventsProvider(mock.NewEventsProvider()),
-		WithValidatingAccountsProvider(hStartAccounts{}),
+		WithValidatingAccountsProvider(accts),
 		WithProposalsPreparer(mockproposalpreparer.New()),
 		WithScheduler(sched),
 		WithAttester(mockattester.New()),
@@ -101,7 +128,7 @@ func c15Startup(period uint64) {
 		WithSyncCommitteeAggregator(mocksynccommitteeaggregator.New()),
 		WithSyncCommitteeSubscriber(&hSyncSubscriber{}),
 		WithBeaconBlockProposer(mockbeaconblockproposer.New()),
-		WithBeaconCommitteeSubscriber(mockbeaconcommitteesubscriber.New()),
+		WithBeaconCommitteeSubscriber(subs),
 		WithAttestationAggregator(mockattestationaggregator.New()),
 		WithAccountsRefresher(mockaccountmanager.NewRefresher()),
 		WithBlockToSlotSetter(mockcache.New(map[phase0.Root]phase0.Slot{}).(cache.BlockRootToSlotSetter)),
@@ -124,6 +151,15 @@ func c15Startup(period uint64) {
 		}
 		vnd.Assert(sched.Count(fmt.Sprintf("Attestations for slot %d", last)) == want, "C03.startup.attestation-jobs-for-the-future-duties-of-this-and-the-next-epoch")
 	}
+	// (C14) start-up subscribes this epoch and the next, each with the validators validating in it
+	for i, e := range subs.epochs {
+		vnd.Assert(subs.with8[i] == (accts.late && e >= accts.lateFrom), "C14.startup.epoch-subscribed-with-the-accounts-validating-in-it")
+	}
+	seen := map[phase0.Epoch]bool{}
+	for _, e := range subs.epochs {
+		seen[e] = true
+	}
+	vnd.Assert(seen[phase0.Epoch(startEpoch)] && seen[phase0.Epoch(startEpoch+1)], "C14.startup.this-epoch-and-the-next-are-subscribed")
 	var tick func(context.Context)
 	for _, j := range sched.Periodic {
 		if j.Name == "Epoch ticker" {
